@@ -4,6 +4,7 @@ pub mod shadowsocks;
 pub mod vmess;
 
 use std::fmt::Debug;
+use std::future::Future;
 use std::marker::PhantomData;
 use std::pin::Pin;
 use std::task::Context;
@@ -160,18 +161,22 @@ where
     }
 }
 
+type Stopped = Pin<Box<dyn Future<Output = std::result::Result<Option<quinn::VarInt>, quinn::StoppedError>> + Send + Sync>>;
+
 pub struct QuicStream {
     send: quinn::SendStream,
     recv: quinn::RecvStream,
+    stopped: Option<Stopped>,
 }
 
 impl QuicStream {
     pub fn new(send: quinn::SendStream, recv: quinn::RecvStream) -> Self {
-        QuicStream { send, recv }
+        QuicStream { send, recv, stopped: None }
     }
 
     pub async fn close(mut self) -> Result<()> {
-        self.send.finish()?;
+        // the sink's close may already have finished the stream
+        let _ = self.send.finish();
         match self.send.stopped().await {
             Ok(_) => Ok(()),
             Err(e) => bail!(e),
@@ -195,6 +200,13 @@ impl AsyncWrite for QuicStream {
     }
 
     fn poll_shutdown(mut self: Pin<&mut Self>, cx: &mut Context<'_>) -> Poll<Result<(), std::io::Error>> {
-        AsyncWrite::poll_shutdown(Pin::new(&mut self.send), cx)
+        // finish the stream and wait until the peer has acknowledged all of it: once the relay drops the
+        // stream (the last reference to the connection) quinn closes the connection at once, and whatever
+        // is still in flight would be lost
+        if self.stopped.is_none() {
+            let _ = self.send.finish();
+            self.stopped = Some(Box::pin(self.send.stopped()));
+        }
+        self.stopped.as_mut().unwrap().as_mut().poll(cx).map(|_| Ok(()))
     }
 }
